@@ -30,10 +30,11 @@ Lemma shape_wake (s s' : state) w : step_shape s s' (Wake w) ->
   running s = true /\ running s' = true /\
   entries s' = sort_entries (map (fire next w) (entries s)) /\
   starts s' = starts s ++ map (srec sched w) (filter (due_at w) (entries s)) /\
-  nextID s' = nextID s /\ clk s' = w.
+  nextID s' = nextID s /\ clk s' = Z.max (clk s) w.
 Proof.
-  inversion 1 as [| | | |? Hd| | | | | |]; subst; [auto 10|].
-  destruct Hd as [Hd|[Hd|[Hd|[Hd|[[? Hd]|Hd]]]]]; discriminate Hd.
+  inversion 1 as [| | | |? Hd| | | | | |? ? Hd]; subst; [auto 10| |].
+  - destruct Hd as [Hd|[Hd|[Hd|[Hd|[[? Hd]|Hd]]]]]; discriminate Hd.
+  - destruct Hd as [Hd|Hd]; discriminate Hd.
 Qed.
 
 Lemma shape_start (s s' : state) t : step_shape s s' (Start t) ->
@@ -41,8 +42,9 @@ Lemma shape_start (s s' : state) t : step_shape s s' (Start t) ->
   entries s' = sort_entries (map (restart next t) (entries s)) /\
   starts s' = starts s /\ nextID s' = nextID s /\ clk s' = t.
 Proof.
-  inversion 1 as [| | | |? Hd| | | | | |]; subst; [auto 10|].
-  destruct Hd as [Hd|[Hd|[Hd|[Hd|[[? Hd]|Hd]]]]]; discriminate Hd.
+  inversion 1 as [| | | |? Hd| | | | | |? ? Hd]; subst; [auto 10| |].
+  - destruct Hd as [Hd|[Hd|[Hd|[Hd|[[? Hd]|Hd]]]]]; discriminate Hd.
+  - destruct Hd as [Hd|Hd]; discriminate Hd.
 Qed.
 
 Lemma split3 h1 ev h2 (s0 s1 s2 : state) :
@@ -123,7 +125,7 @@ Proof.
                   |id Hr Hr' Ht He Hst Hid Hc Ho Hcx
                   |Hr Hr' Ht He Hst Hid Hc Ho Hcx
                   |Hpos Hr' Ht He Hst Hid Hc Ho Hcx
-                  |c Hr' Ht He Hst Hid Hc Ho Hcx]; cbn [env_ok] in Henv.
+                  |ev0 c Hev Hr' Ht He Hst Hid Hc Ho Hcx]; cbn [env_ok] in Henv.
   - (* Start *)
     apply Z.leb_le in Henv. destruct H2 as [Ht Hg Hso Hp].
     constructor; rewrite ?Hst, ?He, ?Hc.
@@ -135,7 +137,7 @@ Proof.
     + intros e Hin. apply -> sort_in in Hin. apply in_map_iff in Hin as [e0 [<- Hin]].
       cbn [restart eprv eid]. apply Hp. exact Hin.
   - (* Wake *)
-    apply andb_true_iff in Henv as [Henv _]. apply Z.leb_le in Henv.
+    clear Henv.
     destruct H2 as [Ht Hg Hso Hp]. pose proof (i1_nodup _ _ Hi) as Hnd.
     constructor; rewrite ?Hst, ?He, ?Hc.
     + intros x Hx. apply in_app_or in Hx as [Hx|Hx].
@@ -145,10 +147,10 @@ Proof.
     + intros e' x n Hin Hx Hsid Hn. apply -> sort_in in Hin.
       apply in_map_iff in Hin as [e0 [<- Hin]]. rewrite fire_eid in Hsid.
       destruct (due_at w e0) eqn:Hd.
-      * destruct (due_fire _ next _ _ Hd) as [Hf [_ Hle]]. rewrite Hf in Hn. cbn [enxt] in Hn.
+      * destruct (due_fire _ next _ _ Hd) as [Hf [Hn0 Hle]]. rewrite Hf in Hn. cbn [enxt] in Hn.
         apply next_later in Hn.
         apply in_app_or in Hx as [Hx|Hx].
-        -- specialize (Ht x Hx). lia.
+        -- pose proof (Hg e0 x _ Hin Hx Hsid Hn0). lia.
         -- apply in_map_iff in Hx as [e [<- Hin']]. apply filter_In in Hin' as [_ Hd'].
            destruct (due_fire _ next _ _ Hd') as [_ [_ Hle']]. cbn. lia.
       * rewrite (not_due_fire _ next _ _ Hd) in Hn.
@@ -189,7 +191,9 @@ Proof.
     intros e Hin. rewrite He in Hin. apply filter_In in Hin as [Hin _]. exact Hin.
   - apply (inv2_weaken s); [assumption|assumption|lia|]. rewrite He. auto.
   - apply (inv2_weaken s); [assumption|assumption|lia|]. rewrite He. auto.
-  - apply andb_true_iff in Henv as [Henv _]. apply Z.leb_le in Henv.
+  - assert (Hle : clk s <= c).
+    { destruct Hev as [-> | ->]; cbn [env_ok] in Henv; apply andb_true_iff in Henv as [Henv _];
+        apply Z.leb_le in Henv; exact Henv. }
     apply (inv2_weaken s); [assumption|assumption|lia|]. rewrite He. auto.
 Qed.
 
@@ -213,7 +217,7 @@ Proof.
                   |id Hr Hr' Ht He Hst Hid Hc Ho Hcx
                   |Hr Hr' Ht He Hst Hid Hc Ho Hcx
                   |Hpos Hr' Ht He Hst Hid Hc Ho Hcx
-                  |c Hr' Ht He Hst Hid Hc Ho Hcx]; rewrite ?Ho, ?Hcx; auto.
+                  |ev0 c Hev Hr' Ht He Hst Hid Hc Ho Hcx]; rewrite ?Ho, ?Hcx; auto.
   - split; [lia|]. intro Hz. apply Hc0. lia.
   - split; [exact H0|]. intro Hz. apply Forall_app. split; [auto|].
     constructor; [apply Z.eqb_eq; exact Hz|constructor].
@@ -329,32 +333,94 @@ Proof.
     apply Z.leb_gt in Hd. exact Hd.
 Qed.
 
+(* [on_time s]: the armed timer is not later than any pending activation *)
+Definition on_time (s : state) : Prop :=
+  forall e n, In e (entries s) -> enxt e = Some n -> exists T, timer s = Some T /\ T <= n.
+
 Theorem none_skipped_tick : forall t0 h c s,
-  wf (init t0) (h ++ [Tick c]) = true -> run (init t0) h = Some s -> running s = true ->
+  wf (init t0) (h ++ [Tick c]) = true -> run (init t0) h = Some s -> on_time s ->
   forall e n, In e (entries s) -> enxt e = Some n -> c < n.
 Proof.
-  intros t0 h c s Hw Hr Hrun e n Hin Hn.
+  intros t0 h c s Hw Hr Hon e n Hin Hn.
   destruct (wf_app _ next _ _ _ _ Hw Hr) as [Hw1 Hw2].
   cbn [Model.wf env_ok] in Hw2. apply andb_true_iff in Hw2 as [Henv _].
   apply andb_true_iff in Henv as [_ Henv].
-  destruct (reach _ _ _ Hw1 Hr) as [H1 _]. destruct (i1_run _ _ H1 Hrun) as [Hso Htm].
-  destruct (sorted_head _ _ _ _ Hso Hin Hn) as [T [HT Hle]].
-  rewrite Htm, HT in Henv. apply Z.ltb_lt in Henv. lia.
+  destruct (Hon e n Hin Hn) as [T [HT Hle]]. rewrite HT in Henv. apply Z.ltb_lt in Henv. lia.
 Qed.
 
-(* --- the armed timer is the minimum ------------------------------------------------------- *)
+(* --- the armed timer ---------------------------------------------------------------------- *)
+Lemma exact_on_time (s : state) : sorted _ (entries s) -> exact _ s ->
+  on_time s /\ (forall T, timer s = Some T -> exists e, In e (entries s) /\ enxt e = Some T).
+Proof.
+  unfold exact, on_time. intros Hso Htm. split.
+  - intros e n Hin Hn. rewrite Htm. eapply sorted_head; eassumption.
+  - intros T HT. rewrite Htm in HT. destruct (entries s) as [|e l]; [discriminate|].
+    exists e. split; [left; reflexivity|exact HT].
+Qed.
+
+(* always: a timer is armed iff something is pending, and it is not earlier than the earliest
+   pending activation *)
 Theorem timer_is_min : forall t0 h s, wf (init t0) h = true -> run (init t0) h = Some s ->
   if running s
-  then (forall e n, In e (entries s) -> enxt e = Some n -> exists T, timer s = Some T /\ T <= n) /\
-       (forall T, timer s = Some T -> exists e, In e (entries s) /\ enxt e = Some T)
+  then (forall e n, In e (entries s) -> enxt e = Some n -> exists T, timer s = Some T) /\
+       (forall T, timer s = Some T ->
+          exists e n, In e (entries s) /\ enxt e = Some n /\ n <= T /\
+                      forall e' n', In e' (entries s) -> enxt e' = Some n' -> n <= n')
   else timer s = None.
 Proof.
   intros t0 h s Hw Hr. destruct (reach _ _ _ Hw Hr) as [H1 _].
   destruct (running s) eqn:Hrun; [|apply (i1_idle _ _ H1 Hrun)].
   destruct (i1_run _ _ H1 Hrun) as [Hso Htm]. split.
-  - intros e n Hin Hn. rewrite Htm. eapply sorted_head; eassumption.
-  - intros T HT. rewrite Htm in HT. destruct (entries s) as [|e l]; [discriminate|].
-    exists e. split; [left; reflexivity|exact HT].
+  - intros e n Hin Hn. destruct (sorted_head _ _ _ _ Hso Hin Hn) as [H [HH _]].
+    rewrite HH in Htm. destruct Htm as [T [HT _]]. eauto.
+  - intros T HT. destruct (entries s) as [|e l] eqn:He; cbn [head_nxt] in Htm.
+    + unfold tm_ok in Htm. congruence.
+    + destruct (enxt e) as [n|] eqn:En; cbn [tm_ok] in Htm; [|congruence].
+      destruct Htm as [T' [HT' Hle]]. assert (T' = T) by congruence. subst T'.
+      exists e, n. split; [left; reflexivity|]. split; [exact En|]. split; [exact Hle|].
+      intros e' n' Hin' Hn'. destruct (sorted_head _ _ _ _ Hso Hin' Hn') as [H [HH Hle']].
+      cbn [head_nxt] in HH. rewrite En in HH. inversion HH; subst. exact Hle'.
+Qed.
+
+(* after Start / Added / Removed, and after a wake-up whose tick value is not older than the
+   clock reading, the timer is EXACTLY the earliest pending activation ... *)
+Theorem timer_exact : forall t0 h ev s s',
+  wf (init t0) (h ++ [ev]) = true ->
+  run (init t0) h = Some s -> run (init t0) (h ++ [ev]) = Some s' ->
+  ((exists t, ev = Start t) \/ (exists t sc, ev = Added t sc) \/ (exists t id, ev = Removed t id) \/
+   (exists w, ev = Wake w /\ clk s <= w)) ->
+  on_time s' /\ (forall T, timer s' = Some T -> exists e, In e (entries s') /\ enxt e = Some T).
+Proof.
+  intros t0 h ev s s' Hw Hr Hr' Hev.
+  destruct (run_snoc _ next _ _ _ _ Hw Hr') as [s1 [o [Hr1 [Hw1 [Henv Hs]]]]].
+  rewrite Hr in Hr1. inversion Hr1; subst s1; clear Hr1.
+  destruct (reach _ _ _ Hw1 Hr) as [H1 _].
+  pose proof (inv1_step _ next _ _ _ _ H1 Hs) as H1'.
+  pose proof (exact_step _ next _ _ _ _ H1 Hs) as Hex.
+  assert (Hrun' : running s' = true).
+  { pose proof (shape _ next _ _ _ _ H1 Hs) as Hsh.
+    destruct Hev as [[t ->]|[[t [sc ->]]|[[t [id ->]]|[w [-> _]]]]];
+      inversion Hsh as [| | | |? Hd| | | | | |? ? Hd]; subst; try assumption;
+      try (destruct Hd as [Hd|[Hd|[Hd|[Hd|[[? Hd]|Hd]]]]]; discriminate Hd);
+      try (destruct Hd as [Hd|Hd]; discriminate Hd). }
+  apply exact_on_time; [apply (proj1 (i1_run _ _ H1' Hrun'))|].
+  destruct Hev as [[t ->]|[[t [sc ->]]|[[t [id ->]]|[w [-> Hle]]]]]; auto.
+Qed.
+
+(* ... and stays what it is (with the same entries) through every event that is not Start, Wake,
+   Added, Removed, Stop or an idle-state Schedule / Remove *)
+Theorem timer_kept : forall t0 h ev s s' o,
+  wf (init t0) h = true -> run (init t0) h = Some s -> step s ev = Some (s', o) ->
+  (ev = Snapshot \/ ev = StartNoop \/ ev = CtxPoll \/ ev = JobRet \/ (exists id, ev = RemoveRet id) \/
+   (exists c, ev = Tick c) \/ (exists c, ev = Lag c)) ->
+  entries s' = entries s /\ timer s' = timer s.
+Proof.
+  intros t0 h ev s s' o Hw Hr Hs Hev. destruct (reach _ _ _ Hw Hr) as [H1 _].
+  pose proof (shape _ next _ _ _ _ H1 Hs) as Hsh.
+  destruct Hev as [->|[->|[->|[->|[[id ->]|[[c ->]|[c ->]]]]]]];
+    inversion Hsh as [| | | |? Hd| | | | | |? ? Hd]; subst; auto;
+    try (destruct Hd as [Hd|[Hd|[Hd|[Hd|[[? Hd]|Hd]]]]]; discriminate Hd);
+    try (destruct Hd as [Hd|Hd]; discriminate Hd).
 Qed.
 
 (* --- Remove / Stop are clean -------------------------------------------------------------- *)
@@ -387,7 +453,7 @@ Proof.
                   |id' Hr Hr' Ht He Hst Hid Hc Ho Hcx
                   |Hr Hr' Ht He Hst Hid Hc Ho Hcx
                   |Hpos Hr' Ht He Hst Hid Hc Ho Hcx
-                  |c Hr' Ht He Hst Hid Hc Ho Hcx]; rewrite ?Hid, ?Hst, ?He.
+                  |ev0 c Hev Hr' Ht He Hst Hid Hc Ho Hcx]; rewrite ?Hid, ?Hst, ?He.
   - split; [split; [exact Hle|]|exists []; apply Hnil].
     intros e Hin. apply -> sort_in in Hin. apply in_map_iff in Hin as [e0 [<- Hin]]. exact (Hab e0 Hin).
   - split; [split; [exact Hle|]|].
@@ -443,16 +509,16 @@ Proof.
   destruct (reach _ _ _ Hw1 Hr1) as [H1 _].
   pose proof (shape _ next _ _ _ _ H1 Hs) as Hsh.
   assert (HabE : absent id sE /\ starts sE = starts s1).
-  { destruct Hev as [-> |[t ->]]; inversion Hsh as [| | | |? Hd| | | | | |]; subst.
-    - destruct Hd as [Hd|[Hd|[Hd|[Hd|[[? Hd]|Hd]]]]]; discriminate Hd.
+  { destruct Hev as [-> |[t ->]]; inversion Hsh as [| | | |? Hd| | | | | |? ? Hd]; subst;
+      try (destruct Hd as [Hd|[Hd|[Hd|[Hd|[[? Hd]|Hd]]]]]; discriminate Hd);
+      try (destruct Hd as [Hd|Hd]; discriminate Hd).
     - split; [split; [lia|]|assumption].
       intros e Hin. match goal with H : entries sE = _ |- _ => rewrite H in Hin end.
       apply filter_In in Hin as [_ Hne]. apply negb_true_iff in Hne. apply Z.eqb_neq. exact Hne.
     - split; [split; [lia|]|assumption].
       intros e Hin. match goal with H : entries sE = _ |- _ => rewrite H in Hin end.
       apply -> sort_in in Hin.
-      apply filter_In in Hin as [_ Hne]. apply negb_true_iff in Hne. apply Z.eqb_neq. exact Hne.
-    - destruct Hd as [Hd|[Hd|[Hd|[Hd|[[? Hd]|Hd]]]]]; discriminate Hd. }
+      apply filter_In in Hin as [_ Hne]. apply negb_true_iff in Hne. apply Z.eqb_neq. exact Hne. }
   destruct HabE as [HabE HstE].
   destruct (absent_run id h2 sE s2 (inv1_step _ next _ _ _ _ H1 Hs) HabE HwE HrE) as [[_ Hab2] [new [Hst Hof]]].
   exists new. rewrite <- HstE. auto.
@@ -563,9 +629,9 @@ Proof.
                     |id Hr0 Hr' Ht He Hst Hid Hc Ho Hcx
                     |Hr0 Hr' Ht He Hst Hid Hc Ho Hcx
                     |Hpos Hr' Ht He Hst Hid Hc Ho Hcx
-                    |c Hr' Ht He Hst Hid Hc Ho Hcx];
-      try (destruct Hd as [-> |[-> |[-> |[-> |[[? ->]| ->]]]]]); cbn [filter is_jobret length]; rewrite ?Ho, ?Hst;
-      try lia.
+                    |ev0 c Hev Hr' Ht He Hst Hid Hc Ho Hcx];
+      try (destruct Hd as [-> |[-> |[-> |[-> |[[? ->]| ->]]]]]); try (destruct Hev as [-> | ->]);
+      cbn [filter is_jobret length]; rewrite ?Ho, ?Hst; try lia.
     rewrite app_length, map_length. lia.
 Qed.
 
@@ -599,7 +665,7 @@ Proof.
                   |id Hr0 Hr' Ht He Hst Hid Hc Ho Hcx
                   |Hr0 Hr' Ht He Hst Hid Hc Ho Hcx
                   |Hpos Hr' Ht He Hst Hid Hc Ho Hcx
-                  |c Hr' Ht He Hst Hid Hc Ho Hcx]; rewrite ?Hcx; auto.
+                  |ev0 c Hev Hr' Ht He Hst Hid Hc Ho Hcx]; rewrite ?Hcx; auto.
   - rewrite app_length, app_nth1 by exact Hk. cbn [length]. split; [lia|auto].
   - rewrite app_length, app_nth1 by exact Hk. cbn [length]. split; [lia|auto].
   - rewrite Ho. destruct (outstanding s - 1 =? 0) eqn:Ez; [|auto].
@@ -718,11 +784,20 @@ Proof.
                   |id' Hr Hr' Ht He Hst Hid Hc Ho Hcx
                   |Hr Hr' Ht He Hst Hid Hc Ho Hcx
                   |Hpos Hr' Ht He Hst Hid Hc Ho Hcx
-                  |c Hr' Ht He Hst Hid Hc Ho Hcx]; cbn [env_ok] in Henv; rewrite ?Hst, ?He, ?Hc.
+                  |ev0 c Hev Hr' Ht He Hst Hid Hc Ho Hcx]; cbn [env_ok] in Henv; rewrite ?Hst, ?He, ?Hc.
   - apply Z.leb_le in Henv. split; [split; [lia|]|exists []; apply Hnil].
     intros e n Hin Hn. apply -> sort_in in Hin. apply in_map_iff in Hin as [e0 [<- Hin]].
     cbn [restart enxt] in Hn. apply next_later in Hn. lia.
-  - apply andb_true_iff in Henv as [Henv _]. apply Z.leb_le in Henv. split; [split; [lia|]|].
+  - assert (Htw : t < w).
+    { (* the tick's value is not before the timer's instant, which is not before the earliest
+         pending activation, which is after t *)
+      destruct (timer s) as [T|] eqn:HT; [|discriminate Henv]. apply Z.leb_le in Henv.
+      destruct (i1_run _ _ Hi Hr) as [_ Htm]. rewrite HT in Htm.
+      destruct (entries s) as [|e0 l]; cbn [head_nxt] in Htm; [cbn in Htm; discriminate Htm|].
+      destruct (enxt e0) as [n0|] eqn:En; cbn [tm_ok] in Htm; [|discriminate Htm].
+      destruct Htm as [T' [Heq Hle']]. inversion Heq; subst T'.
+      pose proof (Hl e0 n0 (or_introl eq_refl) En). lia. }
+    clear Henv. split; [split; [lia|]|].
     + intros e n Hin Hn. apply -> sort_in in Hin. apply in_map_iff in Hin as [e0 [<- Hin]].
       destruct (due_at w e0) eqn:Hd.
       * destruct (due_fire _ next _ _ Hd) as [Hf _]. rewrite Hf in Hn. cbn [enxt] in Hn.
@@ -745,7 +820,9 @@ Proof.
     intros e n Hin Hn. apply filter_In in Hin as [Hin _]. eapply Hl; eassumption.
   - split; [split; assumption|exists []; apply Hnil].
   - split; [split; assumption|exists []; apply Hnil].
-  - apply andb_true_iff in Henv as [Henv _]. apply Z.leb_le in Henv.
+  - assert (Hle : clk s <= c).
+    { destruct Hev as [-> | ->]; cbn [env_ok] in Henv; apply andb_true_iff in Henv as [Henv _];
+        apply Z.leb_le in Henv; exact Henv. }
     split; [split; [lia|assumption]|exists []; apply Hnil].
 Qed.
 
@@ -790,7 +867,7 @@ Proof.
                   |id Hr Hr' Ht He Hst Hid Hc Ho Hcx
                   |Hr Hr' Ht He Hst Hid Hc Ho Hcx
                   |Hpos Hr' Ht He Hst Hid Hc Ho Hcx
-                  |c Hr' Ht He Hst Hid Hc Ho Hcx]; lia.
+                  |ev0 c Hev Hr' Ht He Hst Hid Hc Ho Hcx]; lia.
 Qed.
 
 Definition wake_rec (ev : event) (nx : option Z) : list (Z * Z) :=
@@ -819,8 +896,9 @@ Proof.
                   |id Hr Hr' Ht He Hst Hid Hc Ho Hcx
                   |Hr Hr' Ht He Hst Hid Hc Ho Hcx
                   |Hpos Hr' Ht He Hst Hid Hc Ho Hcx
-                  |c Hr' Ht He Hst Hid Hc Ho Hcx];
-    try (destruct Hd as [->|[->|[->|[->|[[? ->]| ->]]]]]); cbn [wake_rec map efire]; rewrite ?Hst, ?app_nil_r;
+                  |ev0 c Hev Hr' Ht He Hst Hid Hc Ho Hcx];
+    try (destruct Hd as [->|[->|[->|[->|[[? ->]| ->]]]]]); try (destruct Hev as [-> | ->]);
+    cbn [wake_rec map efire]; rewrite ?Hst, ?app_nil_r;
     try (split; [|reflexivity]); rewrite ?He.
   - (* Start *)
     intros e' Hin Heq. apply -> sort_in in Hin. apply in_map_iff in Hin as [e1 [<- Hin]].
@@ -853,6 +931,7 @@ Proof.
     + rewrite (Hsame e' Hin Heq). auto.
     + cbn [eid] in Heq. pose proof (i1_ids _ _ Hi e0 Hin0). lia.
   - intros e' Hin Heq. apply filter_In in Hin as [Hin _]. rewrite (Hsame e' Hin Heq). auto.
+  - intros e' Hin Heq. rewrite (Hsame e' Hin Heq). auto.
   - intros e' Hin Heq. rewrite (Hsame e' Hin Heq). auto.
   - intros e' Hin Heq. rewrite (Hsame e' Hin Heq). auto.
   - intros e' Hin Heq. rewrite (Hsame e' Hin Heq). auto.
@@ -908,8 +987,9 @@ Proof.
   assert (HE : In (mkE id sc (fst st0) (snd st0)) (entries sE) /\ starts sE = starts s1 /\
                id = nextID s1 + 1).
   { destruct ev; cbn [birth] in Hb; try discriminate Hb; inversion Hb; subst; clear Hb;
-      inversion Hsh as [| | | |? Hd| | | | | |]; subst;
-      try (destruct Hd as [Hd|[Hd|[Hd|[Hd|[[? Hd]|Hd]]]]]; discriminate Hd); cbn [fst snd].
+      inversion Hsh as [| | | |? Hd| | | | | |? ? Hd]; subst;
+      try (destruct Hd as [Hd|[Hd|[Hd|[Hd|[[? Hd]|Hd]]]]]; discriminate Hd);
+      try (destruct Hd as [Hd|Hd]; discriminate Hd); cbn [fst snd].
     - split; [|auto]. match goal with H : entries sE = _ |- _ => rewrite H end.
       apply sort_in. apply in_or_app. right. left. reflexivity.
     - split; [|auto]. match goal with H : entries sE = _ |- _ => rewrite H end.
@@ -924,7 +1004,7 @@ Proof.
 Qed.
 
 (* --- the model meets the specification ----------------------------------------------------- *)
-Definition rel (s : state) (R : rstate sched) : Prop :=
+Definition rel0 (s : state) (R : rstate sched) : Prop :=
   Permutation (entries s) (rents R) /\ rrun R = running s /\ rout R = outstanding s /\
   rctx R = ctxs s /\ (forall i, In i (rgone R) -> absent i s) /\
   (rhalt R = true -> running s = false).
@@ -945,11 +1025,16 @@ Proof.
   exact (proj2 (Hgone _ Hg) e Hin eq_refl).
 Qed.
 
-Lemma sim_step (s s' : state) ev o R : inv1 s -> rel s R -> env_ok s ev = true ->
+(* what the reference knows about the clock and about lateness *)
+Definition aux (s : state) (R : rstate sched) : Prop :=
+  (rrun R = true -> rclk R = clk s) /\
+  (rlate R = false -> running s = true -> exact _ s).
+
+Lemma sim_step0 (s s' : state) ev o R : inv1 s -> rel0 s R -> aux s R -> env_ok s ev = true ->
   step s ev = Some (s', o) ->
-  spec_obs R (ev, o, jobs_of ev o) /\ rel s' (rstep next R (ev, o, jobs_of ev o)).
+  spec_obs R (ev, o, jobs_of ev o) /\ rel0 s' (rstep next R (ev, o, jobs_of ev o)).
 Proof.
-  intros Hi [HP [Hrr [Hro [Hrc [Hgone Hhalt]]]]] Henv Hs. unfold rel.
+  intros Hi [HP [Hrr [Hro [Hrc [Hgone Hhalt]]]]] Haux Henv Hs. unfold rel0.
   assert (Hgone' : forall i, In i (rgone R) -> absent i s').
   { intros i Hi_. exact (proj1 (absent_step _ _ _ _ _ Hi (Hgone i Hi_) Hs)). }
   destruct ev; cbn [Model.step] in Hs; destruct (running s) eqn:Hr; cbn [negb] in Hs;
@@ -1044,9 +1129,10 @@ Proof.
     inversion Hs; subst s' o; clear Hs.
     cbn [spec_obs rstep jobs_of entries running outstanding ctxs rents rrun rout rctx rgone rhalt].
     split.
-    + split; [reflexivity|]. intros _ e a Hin Hn.
+    + split; [reflexivity|]. intros _ Hlate e a Hin Hn.
       cbn [env_ok] in Henv. apply andb_true_iff in Henv as [_ Henv].
-      destruct (i1_run _ _ Hi Hr) as [Hso Htm].
+      destruct (i1_run _ _ Hi Hr) as [Hso _].
+      pose proof (proj2 Haux Hlate Hr) as Htm. unfold exact in Htm.
       apply (Permutation_in _ (Permutation_sym HP)) in Hin.
       destruct (sorted_head _ _ _ _ Hso Hin Hn) as [T [HT Hle]].
       rewrite Htm, HT in Henv. apply Z.ltb_lt in Henv. lia.
@@ -1073,6 +1159,70 @@ Proof.
   - (* StopRet *)
     inversion Hs; subst s' o; clear Hs. cbn [spec_obs rstep jobs_of rents rrun rout rctx rgone rhalt].
     rewrite Hr. auto 10.
+  - (* Lag *)
+    inversion Hs; subst s' o; clear Hs.
+    cbn [spec_obs rstep jobs_of entries running outstanding ctxs rents rrun rout rctx rgone rhalt].
+    split; [reflexivity|].
+    split; [exact HP|split; [exact Hrr|split; [exact Hro|split; [exact Hrc|split; [exact Hgone'|]]]]].
+    intro Hh. specialize (Hhalt Hh). congruence.
+  - inversion Hs; subst s' o; clear Hs.
+    cbn [spec_obs rstep jobs_of entries running outstanding ctxs rents rrun rout rctx rgone rhalt].
+    split; [reflexivity|]. auto 10.
+Qed.
+
+Lemma aux_step (s s' : state) ev o R : inv1 s -> rel0 s R -> aux s R -> env_ok s ev = true ->
+  step s ev = Some (s', o) -> aux s' (rstep next R (ev, o, jobs_of ev o)).
+Proof.
+  intros Hi [_ [Hrr _]] [Hck Hex] Henv Hs.
+  pose proof (exact_step _ next _ _ _ _ Hi Hs) as Hnew.
+  pose proof (shape _ next _ _ _ _ Hi Hs) as Hsh. unfold aux.
+  destruct Hsh as [t Hr Hr' He Hst Hid Hc Ho Hcx
+                  |w Hr Hr' He Hst Hid Hc Ho Hcx
+                  |t sc Hr Hr' He Hst Hid Hc Ho Hcx
+                  |t id Hr Hr' He Hst Hid Hc Ho Hcx
+                  |ev Hd ->
+                  |Hr Hr' Ht He Hst Hid Hc Ho Hcx
+                  |sc Hr Hr' Ht He Hst Hid Hc Ho Hcx
+                  |id Hr Hr' Ht He Hst Hid Hc Ho Hcx
+                  |Hr Hr' Ht He Hst Hid Hc Ho Hcx
+                  |Hpos Hr' Ht He Hst Hid Hc Ho Hcx
+                  |ev0 c Hev Hr' Ht He Hst Hid Hc Ho Hcx].
+  - (* Start *) cbn [rstep rrun rclk rlate]. split; [intros _; symmetry; exact Hc|intros _ _; exact Hnew].
+  - (* Wake *) cbn [rstep rrun rclk rlate]. rewrite Hr in Hrr. specialize (Hck Hrr). split.
+    + intros _. rewrite Hc, Hck. reflexivity.
+    + intros Hl _. apply Hnew. apply Z.ltb_ge in Hl. lia.
+  - (* Added *) cbn [Model.step] in Hs. rewrite Hr in Hs. cbn [negb] in Hs.
+    injection Hs as _ Ho'. rewrite <- Ho'. cbn [rstep rrun rclk rlate]. split; [intros _; symmetry; exact Hc|intros _ _; exact Hnew].
+  - (* Removed *) cbn [rstep rrun rclk rlate]. split; [intros _; symmetry; exact Hc|intros _ _; exact Hnew].
+  - (* same state *)
+    assert (HR : forall R' : rstate sched, rrun R' = rrun R -> rclk R' = rclk R -> rlate R' = rlate R ->
+                 (rrun R' = true -> rclk R' = clk s) /\ (rlate R' = false -> running s = true -> exact _ s)).
+    { intros R' -> -> ->. auto. }
+    destruct Hd as [->|[->|[->|[->|[[id ->]| ->]]]]]; cbn [rstep]; try (split; assumption);
+      apply HR; reflexivity.
+  - (* Stop *) cbn [rstep rrun rclk rlate]. split; [discriminate|]. intros _ Hx. congruence.
+  - (* ScheduleIdle *) cbn [Model.step] in Hs. rewrite Hr in Hs.
+    injection Hs as _ Ho'. rewrite <- Ho'. cbn [rstep rrun rclk rlate]. rewrite Hrr, Hr. split; [discriminate|]. intros _ Hx. congruence.
+  - (* RemoveIdle *) cbn [rstep rrun rclk rlate]. rewrite Hrr, Hr. split; [discriminate|]. intros _ Hx. congruence.
+  - (* StopIdle *) cbn [rstep rrun rclk rlate]. split; [discriminate|]. intros _ Hx. congruence.
+  - (* JobRet *) cbn [rstep rrun rclk rlate]. split.
+    + intro Hx. rewrite Hc. auto.
+    + intros Hl Hx. unfold exact in *. rewrite Ht, He. apply Hex; [exact Hl|congruence].
+  - (* Tick / Lag *)
+    destruct Hev as [-> | ->]; cbn [rstep rrun rclk rlate].
+    + split; [intros _; symmetry; exact Hc|].
+      intros Hl Hx. unfold exact in *. rewrite Ht, He. apply Hex; [exact Hl|congruence].
+    + split; [intros _; symmetry; exact Hc|discriminate].
+Qed.
+
+Definition rel (s : state) (R : rstate sched) : Prop := rel0 s R /\ aux s R.
+
+Lemma sim_step (s s' : state) ev o R : inv1 s -> rel s R -> env_ok s ev = true ->
+  step s ev = Some (s', o) ->
+  spec_obs R (ev, o, jobs_of ev o) /\ rel s' (rstep next R (ev, o, jobs_of ev o)).
+Proof.
+  intros Hi [H0 Ha] Henv Hs. destruct (sim_step0 _ _ _ _ _ Hi H0 Ha Henv Hs) as [Hobs H0'].
+  split; [exact Hobs|]. split; [exact H0'|]. eapply aux_step; eassumption.
 Qed.
 
 Lemma sim_run h : forall (s : state) R, inv1 s -> rel s R -> wf s h = true ->
@@ -1090,7 +1240,9 @@ Theorem model_meets_spec : forall t0 h, wf (init t0) h = true ->
   spec_ok next (trace next (init t0) h).
 Proof.
   intros t0 h Hw. unfold spec_ok. apply sim_run; [apply inv1_init| |exact Hw].
-  unfold rel. cbn [init rinit entries rents running rrun outstanding rout ctxs rctx rgone rhalt].
+  unfold rel, rel0, aux.
+  cbn [init rinit entries rents running rrun outstanding rout ctxs rctx rgone rhalt rclk rlate].
+  split; [|split; discriminate].
   split; [apply Permutation_refl|]. split; [reflexivity|]. split; [reflexivity|].
   split; [reflexivity|]. split; [intros i []|discriminate].
 Qed.
